@@ -4,7 +4,7 @@ CONSTANTS
   MaxResPerPeer = 2
   MaxCirc = 2
   MaxCircPerPeer = 2
-  MaxN = 3
+  MaxN = 2
   OffByOne = FALSE
   NoDstCheck = FALSE
 INIT Init
